@@ -494,6 +494,13 @@ func ssConfigs() []ssCfg {
 			cp.MaxSize = 3
 			cp.MaxConcurrentStreamsLowWatermark = 1
 		}),
+		// the pool keeps growing during most of the run (growth || round-robin BIND picks || completions)
+		mk("rr+grow-long", func(cp *pb.ChannelPoolConfig) {
+			cp.MinSize = 1
+			cp.MaxSize = 64
+			cp.MaxConcurrentStreamsLowWatermark = 1
+			cp.BindPickStrategy = pb.ChannelPoolConfig_ROUND_ROBIN
+		}),
 		func() ssCfg {
 			// almost every call ends with a client-side deadline: many concurrent
 			// qualifying completions => concurrent refresh attempts and many swaps
@@ -529,13 +536,17 @@ func TestVerifRaceBalancer(t *testing.T) {
 	out := vNewOut(env, "race-balancer")
 	cfgs := ssConfigs()
 	budget := 1500 * time.Millisecond
-	runs := int64(len(cfgs))
+	// every configuration twice: the two runs land in batches of different parity,
+	// i.e. once with and once without verbose logging (vcheck), and with different GOMAXPROCS
+	runs := int64(len(cfgs)) * 2
 	if env.Tier == "thorough" {
 		budget = 4 * time.Second
 		runs = int64(len(cfgs)) * 12
 	}
 	for _, idx := range env.vCases(runs) {
-		cfg := cfgs[idx%int64(len(cfgs))]
+		// runs 2c and 2c+1 use configuration c: with an even number of batches they
+		// land in batches of different parity (= with and without verbose logging)
+		cfg := cfgs[(idx/2)%int64(len(cfgs))]
 		if cfg.dePct <= 10 {
 			cfg.dePct = 35
 		}
